@@ -62,6 +62,21 @@ void crash_line(const char* cls, const void* addr)
 
 void on_segv(int sig, siginfo_t* si, void*)
 {
+    if (sim::g_read_phase)
+    {
+        // C19: a const operation (or an operation on a private copy) wrote to write-protected shared state
+        const auto* a = static_cast<const unsigned char*>(si->si_addr);
+        const bool obj = sim::g_obj_pages && a >= sim::g_obj_pages && a < sim::g_obj_pages + sim::PAGE;
+        char detail[200];
+        detail[0] = 0;
+        if (!obj) sim::g_heap.classify(si->si_addr, detail, sizeof(detail));
+        char buf[500];
+        const int n = std::snprintf(buf, sizeof(buf), "\nCRASH run=%ld step=%d op=c19_%d props=C19,C02 class=write-to-shared-state %s\n",
+                                    sim::g_cur_run, sim::g_cur_step, sim::g_cur_op - sim::OP_COUNT,
+                                    obj ? "kind=container-object state=live side=inside" : detail);
+        if (n > 0) (void)!::write(1, buf, static_cast<std::size_t>(n));
+        ::_exit(13);
+    }
     crash_line(sig == SIGBUS ? "sigbus" : "segv", si->si_addr);
     ::_exit(13);
 }
@@ -108,6 +123,10 @@ void install_handlers()
 #endif
 }
 
+std::uint64_t c19_seed = 0;
+bool c19_thorough = false;
+int c19_maxsteps = 1 << 30;
+
 struct Outcome
 {
     int status = 0;  // 0 ok, 1 focus violation, 2 blocked, 3 capped
@@ -134,9 +153,17 @@ Outcome execute(const std::vector<sim::Op>& plan, int prop, std::uint64_t env_se
     sim::g_heap.log = &rc.log;
     H* h = new H(rc);
     h->cmp_transcript = &out.transcript;
-    for (auto& op : plan)
+    if (prop == sim::C19)
     {
-        if (!h->step(op)) break;
+        // the "plan" of a C19 run is its seed: set-up, task programs and schedule derive from it
+        h->run_c19(c19_seed, c19_thorough, c19_maxsteps);
+    }
+    else
+    {
+        for (auto& op : plan)
+        {
+            if (!h->step(op)) break;
+        }
     }
     if (!rc.stop) h->teardown();
     out.steps = rc.step;
@@ -162,6 +189,11 @@ Outcome execute(const std::vector<sim::Op>& plan, int prop, std::uint64_t env_se
     sim::g_heap.log = nullptr;
     sim::g_heap.end_run();
     sim::g_ledger.reset();
+    if (sim::g_obj_pages)
+    {
+        ::munmap(sim::g_obj_pages, 2 * sim::PAGE);
+        sim::g_obj_pages = nullptr;
+    }
     return out;
 }
 
@@ -273,6 +305,11 @@ int main(int argc, char** argv)
         std::printf("# cfg=%s prop=C%02d seed=%llu run=%ld env=%llu env2=%llu\n", CFG_NAME, prop,
                     static_cast<unsigned long long>(seed), run, static_cast<unsigned long long>(sim::derive(rs, "env")),
                     static_cast<unsigned long long>(sim::derive(rs, "env-alt")));
+        if (prop == sim::C19)
+        {
+            std::printf("#c19 rs=%llu maxsteps=1000000 thorough=%d\n", static_cast<unsigned long long>(rs), thorough ? 1 : 0);
+            return 0;
+        }
         std::fputs(sim::plan_to_text(plan).c_str(), stdout);
         return 0;
     }
@@ -285,6 +322,25 @@ int main(int argc, char** argv)
             return 2;
         }
         sim::g_cur_run = -1;
+        if (prop == sim::C19)
+        {
+            if (std::FILE* f = std::fopen(plan_path, "r"))
+            {
+                char line[256];
+                while (std::fgets(line, sizeof(line), f))
+                {
+                    unsigned long long rs = 0;
+                    int ms = 0, th = 0;
+                    if (std::sscanf(line, "#c19 rs=%llu maxsteps=%d thorough=%d", &rs, &ms, &th) == 3)
+                    {
+                        c19_seed = rs;
+                        c19_maxsteps = ms;
+                        c19_thorough = th != 0;
+                    }
+                }
+                std::fclose(f);
+            }
+        }
         Outcome o = execute(plan, prop, env, ctr, nullptr, avoid, known);
         if (o.status == 0 && env2 != 0)
         {
@@ -308,7 +364,9 @@ int main(int argc, char** argv)
         {
             sim::g_cur_run = idx;
             const auto rs = run_seed_of(seed, prop, idx);
-            const auto plan = sim::generate_plan(prop, rs, thorough, fault_population(prop, idx));
+            c19_seed = rs;
+            c19_thorough = thorough;
+            const auto plan = prop == sim::C19 ? std::vector<sim::Op>{} : sim::generate_plan(prop, rs, thorough, fault_population(prop, idx));
             const auto e1 = sim::derive(rs, "env");
             Outcome o = execute(plan, prop, e1, ctr, &cases, avoid, known, &known_hits);
             if (o.status == 0 && differential(prop))
